@@ -24,6 +24,7 @@ CFGS = [
     {"batch_size": 25, "threshold": 0.5, "n_jobs": 1},
     {"batch_size": 7, "threshold": 0, "n_jobs": 1},
 ]
+NOMATCH = ["[Na+].[Cl-]>>O", "CCl>>N", "CCO>>", "CC(C)C=CC(C)C.O=O>>", "CS>>[Na+]"]
 KEYS = ("reaction_cnt", "balanced_cnt", "rb_applied", "rb_solved", "mcs_applied", "mcs_solved",
         "confident_cnt")
 
@@ -34,7 +35,9 @@ def plan(tier, seed):
     cases = rowlib.corpus_cases(rng, 420 if q else 5032, 14 if q else 30, CFGS)
     mixed = (G.redox_family(rng, 40 if q else 400) + G.ionic_balanced(rng, 30 if q else 300)
              + G.deletions(rng, 40 if q else 400) + G.two_sided_oxygen(rng, 20 if q else 200)
-             + G.side_swapped(rng, 20 if q else 200) + G.additions(rng, 30 if q else 300))
+             + G.side_swapped(rng, 20 if q else 200) + G.additions(rng, 30 if q else 300)
+             + G.spectator_laden(rng, 20 if q else 200)
+             + [("nomatch_%d" % i, rx) for i, rx in enumerate(NOMATCH * (3 if q else 20))])
     rng.shuffle(mixed)
     cases += rowlib.gen_cases(mixed, 15, CFGS, "mixed")
     shards = rowlib.spread(cases, 14 if q else 44)
@@ -162,13 +165,24 @@ def work(shard, res, tier, seed):
     if "cli" in shard:
         run_cli(shard["cli"], res)
         return
-    for case in shard["cases"]:
+    for ci, case in enumerate(shard["cases"]):
         out = rowlib.run_case(case)
         judge(case, out, res)
+        # thresholds equal to / next to the confidences this very batch produced
+        confs = sorted({r.get("confidence") for r in (out["rows"] or []) if isinstance(r.get("confidence"), float)})
+        if confs and ci % 3 == 0:
+            import math
+            probe = [confs[0], confs[-1], math.nextafter(confs[len(confs) // 2], math.inf), round(confs[-1], 2)]
+            for t in probe[: 2 if tier == "quick" else 4]:
+                if 0 <= t <= 1:
+                    c2 = {"tag": case["tag"] + "@t", "inputs": case["inputs"],
+                          "cfg": dict(case.get("cfg") or {}, threshold=t)}
+                    judge(c2, rowlib.run_case(c2), res)
+                    res.count("threshold_probe_runs")
         if len(res.samples) < 2:
             res.sample({"n_inputs": len(case["inputs"]), "cfg": case.get("cfg"), "stats": out["stats"],
                         "solved_by": [r.get("solved_by") for r in (out["rows"] or [])]})
 
 
 def conclude_args(res, tier, seed):
-    return {"need": {"runs": 20, "cli_runs": 1}, "min_cases": 10}
+    return {"need": {"runs": 20, "cli_runs": 1, "threshold_probe_runs": 5}, "min_cases": 10}
